@@ -123,7 +123,7 @@ class Injector:
                             from . import watchdog
 
                             end = time.monotonic() + w.get('wait', 0.3)
-                            with watchdog.polling():
+                            with watchdog.paused(), watchdog.polling():
                                 while time.monotonic() < end:
                                     if watchdog.quiescent(gap=0.001):
                                         break
@@ -136,8 +136,11 @@ class Injector:
                             finally:
                                 done.set()
 
-                        threading.Thread(target=run, name='vf-window-action', daemon=True).start()
-                        done.wait(w.get('wait', 0.3))
+                        from . import watchdog
+
+                        with watchdog.paused():
+                            threading.Thread(target=run, name='vf-window-action', daemon=True).start()
+                            done.wait(w.get('wait', 0.3))
         if self.p:
             r = self._rng()
             if r.random() < self.p:
